@@ -104,6 +104,14 @@ theorem typed_rt (c : Conv) (ch : Nat) (h : IsTyped ch) : toUni c (fromUni c ch)
   have hlt : ch < 123 := by unfold IsTyped at h; omega
   exact typed_core c (Conv.mem_all c) ch hlt h
 
+/-- … and "the emulation's code" is the character's own ASCII code wherever the emulation displays that code as the
+    character (space is sent as 0x20 although other Viewdata / Mode 7 codes also display as a blank) -/
+theorem typed_code (c : Conv) (ch : Nat) (h : IsTyped ch) (hd : toUni c ch = ch) : fromUni c ch = ch := by
+  have hlt : ch < 123 := by unfold IsTyped at h; omega
+  exact typed_code_core c (Conv.mem_all c) ch hlt h hd
+
+example : IsTyped 0x20 ∧ toUni .viewdata 0x20 = 0x20 ∧ toUni .viewdata 0xC0 = 0x20 ∧ fromUni .viewdata 0x20 = 0x20 := by decide +kernel
+
 /-- the same over the explicit list of the 63 typed characters -/
 theorem typed_rt_list (c : Conv) (ch : Nat) (h : ch ∈ typedChars) : toUni c (fromUni c ch) = ch := by
   have hlt : ch < 123 := by
